@@ -132,6 +132,31 @@ def run(chk):
                 prob = same_function(c, ck, sorted(c.nodes()))
             chk.ob("C05.S.limit_fanout", key, prob is None, file=FILE, func="limit_fanout", line=fo.node.lineno, fact=prob or {"nodes": len(ck.nodes()), "max_fanout": worst},
                    expect="same inputs/outputs, fan-out <= k everywhere, every original node computes the same function")
+    # the visiting order of `ck.nodes()` is a set-iteration order: explore it through renamings of one model
+    base = {"a": ("input", []), "b": ("input", []), "d": ("and", ["a", "b"]), "x": ("not", ["d"]), "bf": ("buf", ["d"]), "l1": ("not", ["bf"]), "l2": ("buf", ["bf"]), "l3": ("nand", ["bf", "a"]),
+            "l4": ("nor", ["bf", "b"]), "o": ("xor", ["l1", "l2", "l3", "l4", "x"])}
+    pools = [["n%d" % i for i in range(10)], list("pqrstuvwxy"), ["k%d_" % (i * 7) for i in range(10)], ["zz", "a1", "m", "b7", "c", "q9", "e", "w2", "g", "h0"]]
+    import itertools as _it
+
+    namings = []
+    for pool in pools:
+        for rot in range(0, 10, 2 if chk.tier == "quick" else 1):
+            names = pool[rot:] + pool[:rot]
+            namings.append(dict(zip(base, names)))
+    for i, ren in enumerate(namings):
+        spec = {ren[n]: (t, [ren[f] for f in fi]) for n, (t, fi) in base.items()}
+        c = build(spec, outputs=[ren["o"]])
+        for fname, attr in (("limit_fanout", "fanout"), ("limit_fanin", "fanin")):
+            r = P.call(FILE, fname, c, 2)
+            n_eval += 1
+            key = f"{fname}::buffer-behind-loaded-driver::naming{i}"
+            if r[0] != "return":
+                chk.ob(f"C05.S.{fname}", key, False, file=FILE, func=fname, fact={"result": str(r)[:160]})
+                continue
+            ck = r[1]
+            worst = max(len(getattr(ck, attr)(n)) for n in ck.nodes())
+            prob = {"problem": f"{attr} bound exceeded", "max": worst, "naming": ren} if worst > 2 else same_function(c, ck, sorted(c.nodes()))
+            chk.ob(f"C05.S.{fname}", key, prob is None, file=FILE, func=fname, fact=prob or {"max": worst}, expect="bound holds at every node and every original node keeps its function, for every visiting order")
     for fname in ("limit_fanin", "limit_fanout"):
         c = fams[0][1]
         for k in (1, 0):
